@@ -365,7 +365,7 @@ fn main() {
 	let mut rng = Rng::new(args.seed);
 	let g = G { secp: Secp256k1::new() };
 	let mut run = Run { rec, fails: vec![], g: &g };
-	let reps: u64 = if args.thorough { 220 } else { 3 } * args.scale;
+	let reps: u64 = if args.thorough { 950 } else { 10 } * args.scale;
 	let n_mut: u64 = if args.thorough { 60 } else { 40 };
 
 	// type ids of the covered messages, from the real reader
@@ -385,8 +385,11 @@ fn main() {
 	}
 	run.flush_fails();
 
-	for _rep in 0..reps {
+	for rep in 0..reps {
 		for name in NAMES {
+			// the long messages (1.4 kB onion, 920-byte attribution data, kB blobs) dominate the size of the
+			// op files: in the thorough tier they take part in every 8th round only
+			if args.thorough && rep % 8 != 0 && matches!(*name, "UpdateAddHTLC" | "PeerStorage" | "PeerStorageRetrieval" | "UpdateFailHTLC" | "UpdateFulfillHTLC") { continue; }
 			let nt = n_tlvs(name);
 			// (a) valid stream: every presence mask (up to 16), fresh values
 			let masks: Vec<u32> = (0..(1u32 << nt)).collect();
